@@ -225,7 +225,9 @@ pub fn check_msg<T: Msg>(ctx: &mut Ctx, x: &T, inj: &Inject) -> Result<(), Strin
         }
     }
     for (t, sel) in &inj.texts {
-        let key = format!("x-unknown-{t}");
+        // unknown text keys: free-form ones and ones that look like numbers (they are still text keys)
+        const NUMERIC: [&str; 10] = ["1", "2", "3", "4", "5", "7", "9", "0", "255", "01"];
+        let key = if t % 3 == 0 { NUMERIC[(*t as usize / 3) % NUMERIC.len()].to_string() } else { format!("x-unknown-{t}") };
         if !with_unknown.iter().any(|(kk, _)| kk.as_text() == Some(key.as_str())) {
             let pos = (inj.at as usize * 7 + injected) % (with_unknown.len() + 1);
             with_unknown.insert(pos, (Cbor::Text(key), junk(*sel)));
